@@ -1235,7 +1235,10 @@ impl<'a> FieldEntry<'a> {
         // since field name change by rust-analyzer is not possible when using `field.ident` span
         //
         // Same problem with `field.span()`, since it is the same as `field.ident` span when `field.vis` is empty.
-        self.field.ty.span()
+        //
+        // Only the location is taken from the field: names written with this span (`self`, `__other`, ..) must resolve like
+        // the rest of the generated code, also when the field's tokens come from another macro (`$inner:ident`).
+        Span::call_site().located_at(self.field.ty.span())
     }
 
     fn member(&self) -> TokenStream {
